@@ -3,6 +3,8 @@
     c18 wire <site> <kind> <wrapper> <applicable> <configured>   → "<model> <spec>"
         model = Site.winner of the site's entry in the regenerated Gen.sites (FinalizeIssue applied to
                 the sources the site passes), spec = firstConfigured (what the property demands)
+    c18 silent <site> <kind> <wrapper> <applicable> <configured> <silent>   → the same with the sources in
+        <silent> configured to answer "": model/spec are evaluated on configured \ silent
     c18 loc <locale> <kind>                                      → "<model> <spec>"
         model = the entry of the regenerated Gen.localeTable, spec = 1
 -/
@@ -26,6 +28,12 @@ def handle : List String → String
   | ["wire", site, _kind, _wrapper, _appl, cfg] =>
     match findSite site with
     | some s => s!"{s.winner (setOf cfg)} {firstConfigured (setOf cfg)}"
+    | none => "no-such-site -"
+  | ["silent", site, _kind, _wrapper, _appl, cfg, silent] =>
+    -- a source that answers "" is as good as not configured (finalize_silent_*)
+    let eff := (setOf cfg).diff (setOf silent)
+    match findSite site with
+    | some s => s!"{s.winnerSilent (setOf cfg) (setOf silent)} {firstConfigured eff}"
     | none => "no-such-site -"
   | ["loc", loc, kind] =>
     match Gozod.Gen.localeTable.lookup loc with
